@@ -144,3 +144,33 @@ Lemma postprocess_tasklist_refuted :
   inline_post (io_with Tasklist true InlinesProofs.io_default) (Some 1%N) lbracket_witness
   <> inline_post (io_with Tasklist false InlinesProofs.io_default) (Some 1%N) lbracket_witness.
 Proof. vm_compute. repeat split; try reflexivity. intro H; discriminate H. Qed.
+
+Lemma iagree_feature F o inp : free_of_heads F inp = true -> iagree (T_of F) (io_with F true o) (io_with F false o) inp.
+Proof.
+  intro Hf. constructor.
+  - exact (T_of_ascii F).
+  - destruct F; first [left; reflexivity | right; vm_compute; auto].
+  - destruct F; first [left; reflexivity | right; vm_compute; auto].
+  - destruct F; first [left; reflexivity | right; vm_compute; auto].
+  - destruct F; first [left; reflexivity | right; vm_compute; auto].
+  - destruct F; first [left; reflexivity | right; vm_compute; auto].
+  - destruct F; first [left; reflexivity | right; vm_compute; auto].
+  - destruct F; first [left; reflexivity | right; vm_compute; auto].
+  - destruct F; first [left; reflexivity | right; vm_compute; auto].
+  - destruct F; first [left; reflexivity | right; vm_compute; auto].
+  - destruct F; first [left; reflexivity | right; vm_compute; auto].
+  - destruct F; first [left; reflexivity | right; vm_compute; auto].
+  - destruct F; first [left; reflexivity | right; vm_compute; auto].
+  - destruct F; first [left; reflexivity | right; vm_compute; auto].
+  - destruct F; reflexivity.
+  - destruct F; reflexivity.
+  - intros wb p. apply (find_special_inert_heads F); [apply io_fn_agree | exact Hf].
+  - intros b Hb. apply T_of_skip. exact Hb.
+Qed.
+
+(* (a) one dispatcher step, per feature *)
+Lemma inline_step_inert F memo o u inp lo sl refmap maxref s :
+  free_of_heads F inp = true -> Inv (T_of F) s ->
+  parse_inline memo (io_with F true o) u inp lo sl refmap maxref s
+  = parse_inline memo (io_with F false o) u inp lo sl refmap maxref s.
+Proof. intros Hf I. apply (step_eq_rec memo (T_of F)); [exact (T_of_free F inp Hf) | apply iagree_feature; exact Hf | exact I]. Qed.
